@@ -331,6 +331,14 @@ def udpClientUnpack (C : Ciphers) (now : Int) (csid : Nat) (sessionOk : Bool) (r
     let (a, pstart, plen) ← parseUDPServerMessageHeader now csid pt
     pure (a, pstart + messageHeaderStart, plen)
 
+/-- what the session relay does with one datagram (service/udp_session.go): `SessionInfo`, `NewUnpacker`, `UnpackInPlace` -/
+def udpServerReceive (C : Ciphers) (now : Int) (idLen : Nat) (found replayed : Bool) (b : Bytes) (ps pl : Nat) :
+    R (Addr × Nat × Int) := do
+  let pkt ← slice b ps (ps + pl)
+  let (_, pkt') ← udpSessionInfo C pkt
+  udpNewUnpacker idLen found pkt'
+  udpServerUnpack C now (Gen.C06.UDPSeparateHeaderLength + idLen) replayed (b.take ps ++ pkt' ++ b.drop (ps + pl)) ps pl
+
 /-! ### direct/packet.go — unpackers on `b[packetStart : packetStart+packetLen]` -/
 
 def noneServerUnpack (b : Bytes) (ps pl : Nat) : R (Addr × Nat × Int) := do
@@ -376,6 +384,131 @@ def directServerPack (target : Addr) (targetOnly : Bool) (srcIsTarget : Bool) (p
 /-- what `service.ServerConfig.UDPRelay` accepts for the `direct` protocol (see Gen: `directRejectsTargetOnlyDomain`) -/
 def directConfigAccepted (rejectsTargetOnlyDomain : Bool) (target : Addr) (targetOnly : Bool) : Bool :=
   target.isValid && !(rejectsTargetOnlyDomain && targetOnly && !target.isIP)
+
+/-- load-time acceptance followed by the first reply datagram (`none` = configuration refused at load) -/
+def directServe (rej : Bool) (target : Addr) (targetOnly srcIsTarget : Bool) (n m : Nat) : Option (R Unit) :=
+  if directConfigAccepted rej target targetOnly then some (directServerPack target targetOnly srcIsTarget n m) else Option.none
+
+/-! ### socks5/stream.go — the server handshake on its scratch buffer `b := make([]byte, 3+MaxAddrLen)`
+
+State: the scratch buffer, the rest of the client's byte stream, the bytes written so far.
+Writes to the client are assumed to succeed (the client is still reading). -/
+
+structure S5 where
+  b : Bytes
+  s : Bytes
+  w : Bytes
+
+/-- `io.ReadFull(rw, b[i:j])` -/
+def S5.readInto (st : S5) (i j : Nat) : R S5 := do
+  let _ ← slice st.b i j
+  let (r, s') ← readFull st.s (j - i)
+  pure { st with b := st.b.take i ++ r ++ st.b.drop j, s := s' }
+
+/-- `rw.Write(b[:n])` -/
+def S5.writeTo (st : S5) (n : Nat) : R S5 := do
+  let out ← sliceTo st.b n
+  pure { st with w := st.w ++ out }
+
+def S5.set (st : S5) (i : Nat) (v : UInt8) : R S5 := do
+  let b' ← setIdx st.b i v
+  pure { st with b := b' }
+
+/-- `replyWithStatus(w, b, status)` -/
+def S5.replyWithStatus (st : S5) (status : UInt8) : R S5 := do
+  let reply ← sliceTo st.b (3 + Gen.C06.IPv4AddrLen)
+  let reply ← setIdx reply 0 (UInt8.ofNat Gen.C06.Version)
+  let reply ← setIdx reply 1 status
+  let reply ← setIdx reply 2 0
+  let tail ← sliceFrom reply 3
+  let _ ← arr Gen.C06.IPv4AddrLen tail                       -- *(*[IPv4AddrLen]byte)(reply[3:]) = IPv4UnspecifiedAddr
+  let reply := reply.take 3 ++ [UInt8.ofNat Gen.C06.AtypIPv4, 0, 0, 0, 0, 0, 0]
+  pure { st with b := reply ++ st.b.drop (3 + Gen.C06.IPv4AddrLen), w := st.w ++ reply }
+
+/-- `serverHandleMethodSelection(rw, b, method)` -/
+def s5MethodSelection (method : Nat) (st : S5) : R S5 :=
+  if st.b.length < Gen.C06.serverHandleMethodSelection_lenGuard0 then .panic else do
+  let st ← st.readInto 0 3
+  let v ← idx st.b 0
+  if v.toNat ≠ Gen.C06.Version then .err .version else do
+  let nm ← idx st.b 1
+  let nmethods := nm.toNat
+  let (st, found) ←
+    (if nmethods = 0 then .err .zeroNMethods
+     else if nmethods = 1 then do
+       let m ← idx st.b 2
+       pure (st, m.toNat == method)
+     else do
+       let st ← st.readInto 3 (3 + nmethods - 1)
+       let ms ← slice st.b 2 (2 + nmethods)
+       pure (st, ms.any (fun x => x.toNat == method)) : R (S5 × Bool))
+  if !found then do
+    let st ← st.set 1 (UInt8.ofNat Gen.C06.MethodNoAcceptable)
+    let _ ← st.writeTo 2
+    .err .noAcceptableMethod
+  else do
+    let st ← st.set 1 (UInt8.ofNat method)
+    st.writeTo 2
+
+/-- `serverHandleUsernamePassword`; `check uname passwd` = the user table lookup and comparison -/
+def s5UsernamePassword (check : Bytes → Bytes → Bool) (st : S5) : R S5 :=
+  if st.b.length < Gen.C06.serverHandleUsernamePassword_lenGuard0 then .panic else do
+  let st ← st.readInto 0 4
+  let v ← idx st.b 0
+  if v.toNat ≠ Gen.C06.UsernamePasswordAuthVersion then .err .authVersion else do
+  let ul ← idx st.b 1
+  let ulen := ul.toNat
+  if ulen = 0 then .err .zeroULEN else do
+  let st ← (if ulen > 1 then st.readInto 4 (4 + ulen - 1) else pure st)
+  let plenIndex := 2 + ulen
+  let uname ← slice st.b 2 plenIndex
+  let pl ← idx st.b plenIndex
+  let plen := pl.toNat
+  if plen = 0 then .err .zeroPLEN else do
+  let st ← st.readInto 2 (2 + plen)
+  let passwd ← slice st.b 2 (2 + plen)
+  let okAuth := check uname passwd
+  let st ← st.set 1 (if okAuth then 0 else 1)
+  let st ← st.writeTo 2
+  if !okAuth then .err .badAuth else pure st
+
+/-- `serverHandleRequest`: on success the pending connection keeps the buffer for the later reply -/
+def s5Request (enableTCP enableUDP tcpLocal : Bool) (boundAddr : Bytes) (st : S5) : R (S5 × Addr) :=
+  if st.b.length < Gen.C06.serverHandleRequest_lenGuard0 then .panic else do
+  let st ← st.readInto 0 5
+  let v ← idx st.b 0
+  if v.toNat ≠ Gen.C06.Version then .err .version else do
+  -- AppendFromReader(b[3:3], newPrefixedReader(b[3:5], rw)): cap(b[3:3]) = MaxAddrLen, the address lands in b[3:]
+  let _ ← slice st.b 3 3
+  let pre ← slice st.b 3 5
+  let (sa, rest) ← appendFromReader (pre ++ st.s)
+  let st := { st with b := st.b.take 3 ++ sa ++ st.b.drop (3 + sa.length), s := rest }
+  let (a, _) ← connAddrFromSlice sa
+  let cmd ← idx st.b 1
+  if cmd.toNat = Gen.C06.CmdConnect ∧ enableTCP then pure (st, a)
+  else if cmd.toNat = Gen.C06.CmdUDPAssociate ∧ enableUDP then
+    if !tcpLocal then .err .localAddr else do
+    let st ← st.set 1 (UInt8.ofNat Gen.C06.ReplySucceeded)
+    let hd ← sliceTo st.b 3
+    let st := { st with w := st.w ++ hd ++ boundAddr }          -- AppendAddrFromAddrPort(b[:3], addrPort)
+    let _ ← sliceTo st.b 1                                       -- rw.Read(b[:1]) holds the connection
+    .err .handled
+  else do
+    let _ ← st.replyWithStatus (UInt8.ofNat Gen.C06.ReplyCommandNotSupported)
+    .err .unsupportedCmd
+
+/-- `ServerAccept` / `ServerAcceptUsernamePassword` on a fresh scratch buffer, then `Proceed` or `Abort(code)` -/
+def s5Server (auth : Bool) (check : Bytes → Bytes → Bool) (enableTCP enableUDP tcpLocal : Bool) (boundAddr : Bytes)
+    (finish : Option UInt8) (stream : Bytes) : R (Addr × Bytes) := do
+  let st : S5 := ⟨List.replicate (3 + Gen.C06.MaxAddrLen) 0, stream, []⟩
+  let st ← s5MethodSelection (if auth then Gen.C06.MethodUsernamePassword else Gen.C06.MethodNoAuthenticationRequired) st
+  let st ← (if auth then s5UsernamePassword check st else pure st)
+  let (st, a) ← s5Request enableTCP enableUDP tcpLocal boundAddr st
+  match finish with
+  | Option.none => pure (a, st.w)
+  | some status => do
+    let st ← st.replyWithStatus status
+    pure (a, st.w)
 
 /-! ### router: criteria `Meet` on the wire-derived address, `Route.Match`, `Router.match` -/
 
